@@ -20,7 +20,7 @@ pub fn def() -> PropDef {
 }
 
 fn streams(t: Tier) -> Vec<StreamDef> {
-    vec![st("crafted", t.n(42 * 16 * 24, 42 * 16 * 400, 96, 42 * 16 * 8), true), st("random", t.n(100_000, 5_000_000, 96, 30_000), false)]
+    vec![st("crafted", t.n(42 * 16 * 24, 42 * 16 * 400, 96, 42 * 16 * 8), true), st("random", t.n(100_000, 5_000_000, 96, 30_000), false), st("giant", t.n(12, 96, 0, 12), false)]
 }
 
 fn floors(t: Tier) -> Vec<(String, u64)> {
@@ -138,6 +138,22 @@ fn run(ctx: &mut Ctx) {
             let value = shide::encrypt(attr, &plain, &secret, &rv);
             judge(ctx, attr, &value, &secret, rv, Some(declared));
             ctx.rep.sample(|| J::obj(vec![("attribute_type", J::U(attr as u64)), ("decrypted_length_field", J::U(declared as u64)), ("value_octets", J::U(vlen as u64)), ("hidden_value_hex", J::hex(&value[..value.len().min(32)]))]));
+        }
+        "giant" => {
+            // hidden values of 2^12, 2^16, 2^16+1 and 2^17 blocks with a crafted decrypted length
+            let blocks = *ctx.rng.pick(&[4_096usize, 65_535, 65_536, 65_537, 131_072]);
+            let vlen = 16 * blocks;
+            let attr = *ctx.rng.pick(&[7u16, 11, 26, 8]);
+            let secret = val::secret(&mut ctx.rng);
+            let mut rv = [0u8; 4];
+            rv.copy_from_slice(&ctx.rng.bytes(4));
+            let declared = *ctx.rng.pick(&[6u16, 7, 20, 100, 1022, 1023, 1024, 0xffff, 5]);
+            let mut plain = vec![0x61u8; vlen];
+            plain[0] = (declared >> 8) as u8;
+            plain[1] = declared as u8;
+            let value = shide::encrypt(attr, &plain, &secret, &rv);
+            ctx.rep.bucket("giant.values");
+            judge(ctx, attr, &value, &secret, rv, Some(declared));
         }
         "random" => {
             let r = &mut ctx.rng;
